@@ -301,9 +301,15 @@ class H(explore.Harness):
         if st.contacts is None:
             return
         names = {HostDistance.LOCAL: 'LOCAL', HostDistance.REMOTE: 'REMOTE', HostDistance.IGNORED: 'IGNORED'}
-        kind = st.spec[0] if st.spec[0] != 'wrap' else '%s(%s)' % (st.spec[2], st.spec[1][0])
+        def leafname(s):
+            if s[0] == 'dcaware':
+                return 'dcaware-%s' % ('configured' if s[1] else 'inferred')
+            return s[0]
+        kind = leafname(st.spec)
+        if st.spec[0] == 'wrap':
+            kind = '%s(%s)' % (st.spec[2], leafname(st.spec[1]))
         if st.spec[0] == 'filter':
-            kind = 'filter(%s)' % st.spec[1][0]
+            kind = 'filter(%s)' % leafname(st.spec[1])
         dcs = dict((i, st.objs[i].datacenter) for i in st.known())
         universe = range(st.n)
         data = {'params': dict(self.params, spec=plain(st.spec)), 'history': hist}
@@ -391,7 +397,6 @@ def run(ctx):
     for name, params, depth in configs(ctx):
         explore.bfs(ctx, H, params, max_depth=depth, dev_bound=1, label='c21-' + name,
                     max_states=None)
-    ctx.count('transitions', ctx.counters.get('executions', 0))
     ctx.cov['rule'] = ('state = event history replayed on fresh real policy objects; non-trivial = distinct canonical state at depth >= 3; '
                        'outcomes = (policy, instance kind, plan length, number of distinct distances)')
     ctx.assume('membership events reach a policy one at a time, in the order the cluster code issues them (handler atomicity)')
